@@ -67,7 +67,9 @@ func c02dests(cmd c01cmd, run *vE2ERun) ([]uint32, string) {
 		return out, ""
 	}
 	for _, f := range run.Frames {
-		p := zzref.RefReadProbe(f.Data, false)
+		// a frame without Ethernet header (VPN link mode) starts with the IPv4 version nibble
+		raw := len(f.Data) > 0 && f.Data[0]>>4 == 4 && (len(f.Data) < 14 || !(f.Data[12] == 0x08 && (f.Data[13] == 0x00 || f.Data[13] == 0x06)))
+		p := zzref.RefReadProbe(f.Data, raw)
 		if !p.OK {
 			return out, "malformed frame on the wire: " + p.Why
 		}
@@ -253,9 +255,17 @@ func verifC02(c *drv.Ctx) {
 			}
 			excl = append(excl, zzref.RefNet{Base: b, Ones: o})
 		}
+		vpn := len(extra) > 0 && extra[0] == "@vpn"
+		if vpn {
+			extra = nil
+		}
 		sc := &vE2ESpec{Args: append(append(append([]string{}, cmd.args...), extra...), "--json", "--exclude", "{DIR}/ex.txt", "10.0.1.16/28"),
 			Files: map[string]string{"ex.txt": strings.Join(content, "\n") + "\n"}, Positive: func(string, uint16) bool { return false }}
-		if cmd.kind != "arp" && cmd.kind != "app" {
+		if vpn {
+			// the scan leaves through an interface without hardware address: no ARP cache, raw IP framing
+			sc.World = c01vpnWorld
+			extra = []string{"(vpn link)"}
+		} else if cmd.kind != "arp" && cmd.kind != "app" {
 			sc.Stdin = vGatewayCache
 		}
 		run, x := vE2EOnce(sc)
@@ -342,6 +352,15 @@ func verifC02(c *drv.Ctx) {
 					// the same with the rarely used --gwmac: option parsing of the IP-level scans has two stages
 					run1(cur, cmd, "--gwmac", "02:00:00:00:00:fd")
 				}
+
+			}
+		}
+		if len(cur) == 1 {
+			// every IP-level command over a link without hardware address (the exclusion is wired per command)
+			for _, cmd := range c02cmds {
+				if cmd.kind != "arp" && cmd.kind != "app" {
+					run1(cur, cmd, "@vpn")
+				}
 			}
 		}
 		if len(cur) == maxLen {
@@ -380,9 +399,10 @@ func verifC02(c *drv.Ctx) {
 					port := map[string]int{"tcp-syn": 80, "socks": 1080, "udp": 53, "tcp-fin": 80, "tcp-flags": 80, "elastic": 9200, "docker": 2375}[cmd.name]
 					var file string
 					if cmd.ports && !addrFile {
-						file = fmt.Sprintf("{\"ip\":%q,\"port\":%d}\n{\"ip\":\"10.0.2.7\",\"port\":%d}\n", spell, port, port)
+						// the address that may be excluded is listed on adjacent lines (a file grouped by host) and once more later
+						file = fmt.Sprintf("{\"ip\":%q,\"port\":%d}\n{\"ip\":%q,\"port\":%d}\n{\"ip\":\"10.0.2.7\",\"port\":%d}\n{\"ip\":%q,\"port\":%d}\n", spell, port, spell, port+1, port, spell, port+2)
 					} else {
-						file = fmt.Sprintf("{\"ip\":%q}\n{\"ip\":\"10.0.2.7\"}\n", spell)
+						file = fmt.Sprintf("{\"ip\":%q}\n{\"ip\":%q}\n{\"ip\":\"10.0.2.7\"}\n{\"ip\":%q}\n", spell, spell, spell)
 					}
 					sc := &vE2ESpec{Args: append(args, "--json", "--exclude", "{DIR}/ex.txt", "-f", "{DIR}/t.jsonl"),
 						Files: map[string]string{"ex.txt": ex + "\n", "t.jsonl": file}, Positive: func(string, uint16) bool { return false }}
@@ -409,7 +429,10 @@ func verifC02(c *drv.Ctx) {
 					}
 					excluded := ex != "10.0.2.0/24"
 					if excluded && n19 > 0 {
-						c.Fail(key+":excluded-probed", desc+": the excluded address 10.0.1.19 was probed", rep)
+						c.Fail(key+":excluded-probed", fmt.Sprintf("%s: the excluded address 10.0.1.19 (listed three times, twice on adjacent lines) was probed %d times", desc, n19), rep)
+					}
+					if !excluded && n19 != 3 && run.Err == "" {
+						c.Fail(key+":unexcluded-dropped", fmt.Sprintf("%s: 10.0.1.19 is listed three times and not excluded, it was probed %d times", desc, n19), rep)
 					}
 					c.Outcome(fmt.Sprintf("spell:%d", len(dests)))
 				}
